@@ -44,7 +44,7 @@ IsAscP(p) == \A i \in 1..(Len(p) - 1) : p[i] < p[i + 1]
 IsDscP(p) == \A i \in 1..(Len(p) - 1) : p[i] > p[i + 1]
 
 \* verdict for one exec event: [val |-> "ok"|"bad"|"skip", ord |-> "ok"|"bad"|"na"]
-Judge(d, e, want, res) ==
+JudgeEnv(d, e, want, res, env) ==
   IF IsErr(want) THEN
     IF want.why \in SkipWhys THEN [val |-> "skip", ord |-> "na"]
     ELSE [val |-> IF res.t = "err" THEN "ok" ELSE "bad", ord |-> "na"]
@@ -54,7 +54,7 @@ Judge(d, e, want, res) ==
      ord |-> IF /\ \A i \in 1..Len(res.seq) : res.seq[i] \in Ids(d)             \* only nodes of the queried document
                 /\ Len(res.seq) = Cardinality(ToSet(res.seq))                    \* duplicate-free
                 /\ PosConsistent(d, res.seq, res.pos)
-                /\ IF e.op = "union" \/ ~UsesReverseAxis(e) THEN IsAscP(res.pos) ELSE (IsAscP(res.pos) \/ IsDscP(res.pos))
+                /\ IF e.op = "union" \/ ~(UsesReverseAxis(e) \/ MayHandOnOrder(e, env)) THEN IsAscP(res.pos) ELSE (IsAscP(res.pos) \/ IsDscP(res.pos))
              THEN "ok" ELSE "bad"]
   ELSE [val |-> IF res.v = want.v THEN "ok" ELSE "bad", ord |-> "na"]
 
@@ -111,11 +111,11 @@ ExecRet ==
          d == docs[ev.h]
          env == NormEnv(ev.env)
          want == Eval(d, env, ev.e, Ctx(ev.ctx))
-         v == Judge(d, ev.e, want, ev.res)
+         v == JudgeEnv(d, ev.e, want, ev.res, env)
          bad0 == v.val = "bad" \/ v.ord = "bad"
          \* a deviation that is exactly the recorded behaviour of an open known finding
          known == bad0 /\ Affected(ev.e, OpenFx) /\
-                  LET kv == Judge(d, ev.e, Eval(d, [ns |-> env.ns, vars |-> env.vars, funcs |-> env.funcs, fx |-> OpenFx], ev.e, Ctx(ev.ctx)), ev.res)
+                  LET kv == JudgeEnv(d, ev.e, Eval(d, [ns |-> env.ns, vars |-> env.vars, funcs |-> env.funcs, fx |-> OpenFx], ev.e, Ctx(ev.ctx)), ev.res, env)
                   IN kv.val # "bad" /\ kv.ord # "bad"
          api == bad0 \/ known \/ ApiOK(d, ev, want)
          bad == (bad0 /\ ~known) \/ ~FrameOK(ev) \/ ~api
@@ -134,7 +134,8 @@ RECURSIVE SameGV(_, _)
 SameGV(w, g) ==   \* type-safe structural equality of filled values (g is what the trace logged)
   /\ "k" \in DOMAIN g /\ g.k = w.k
   /\ CASE w.k \in {"str", "bool", "num"} -> g.v = w.v
-       [] w.k = "list" -> Len(g.v) = Len(w.v) /\ \A i \in 1..Len(w.v) : SameGV(w.v[i], g.v[i])
+       [] w.k = "list" -> Len(g.v) = Len(w.v) /\ (\/ \A i \in 1..Len(w.v) : SameGV(w.v[i], g.v[i])
+                                                  \/ (w.rev /\ \A i \in 1..Len(w.v) : SameGV(w.v[Len(w.v) + 1 - i], g.v[i])))
        [] w.k = "rec" -> Len(g.f) = Len(w.f) /\ \A i \in 1..Len(w.f) : SameGV(w.f[i], g.f[i])
        [] OTHER -> TRUE
 UnmarshalEv ==
@@ -143,7 +144,7 @@ UnmarshalEv ==
          d == docs[ev.h]
          env == NormEnv(ev.env)
          r == Eval(d, env, ev.e, Ctx(ev.ctx))
-         want == IF IsErr(r) THEN UErr(IF r.why \in SkipWhys THEN "unk" ELSE "result") ELSE UnmarshalCall(d, env, ev.form, ev.type, r)
+         want == IF IsErr(r) THEN UErr(IF r.why \in SkipWhys THEN "unk" ELSE "result") ELSE UnmarshalCall(d, env, ev.form, ev.type, r, MayRev(ev.e))
          undetermined == IsUErr(want) /\ want.why = "unk"
          ok == IF undetermined THEN TRUE
                ELSE IF IsUErr(want) THEN ("t" \in DOMAIN ev.out /\ ev.out.t = "err")
